@@ -462,9 +462,9 @@ impl CredentialStore for RecStore {
                 .find(|c| c.credential_id == cred.credential_id && c.rp_id == cred.rp_id)
             {
                 *slot = cred;
-            } else {
-                g.creds.push(cred);
             }
+            // an update that names no stored record touches nothing (like an SQL UPDATE matching zero rows):
+            // updating is not saving
         }
         self.log.push(self.actor, ev);
         Ok(())
